@@ -119,7 +119,7 @@ static int read_fbu(int fd, int cb, int curw, int curh, int caps, int *told, cha
 }
 
 static int scenario(int W, int H, int B, int caps, int W2, int H2, int B2, int mx, int my) {
-  rfbScreenInfoPtr scr; vh_conn c; rfbClientPtr cl; unsigned char buf[256]; char out[512] = "";
+  rfbScreenInfoPtr scr; static vh_conn c; rfbClientPtr cl; unsigned char buf[256]; char out[512] = "";
   int told = 0, cb = B, i, rc; char *old, *nb;
   armed = 0;
   scr = vh_screen(W, H, B);
@@ -128,7 +128,7 @@ static int scenario(int W, int H, int B, int caps, int W2, int H2, int B2, int m
   scr->deferUpdateTime = DEFER_MS;
   rfbRunEventLoop(scr, 40000, TRUE);
   if (vh_connect_pre(scr, &c, "RFB 003.008\n", 12) != 0 || !c.cl) { printf("!thr FAIL no client\n"); return 1; }
-  cl = c.cl; cl->clientGoneHook = NULL; cl->clientData = NULL;
+  cl = c.cl;
   rfbStartOnHoldClient(cl);
   /* handshake, done by the viewer side on this thread */
   if (rd(c.peer, buf, 12, LIM)) { printf("!thr FAIL no server version\n"); return 1; }
@@ -165,16 +165,14 @@ static int scenario(int W, int H, int B, int caps, int W2, int H2, int B2, int m
   old = scr->frameBuffer; nb = (char *)malloc((size_t)W2 * H2 * B2 + 1); fill(nb, W2, H2, B2, 2);
   rfbNewFramebuffer(scr, nb, W2, H2, B2 == 2 ? 5 : 8, B2 == 1 ? 1 : 3, B2);
   free(old);
+  /* "Rich cursor data should be converted to new pixel format by the caller" (the output thread is parked) */
+  if (B2 != B && scr->cursor && scr->cursor->richSource) rfbMakeRichCursorFromXCursor(scr, scr->cursor);
   sem_post(&sem_go);
   /* what the viewer receives now: (size message,) then rectangles of the NEW geometry only */
   rc = read_fbu(c.peer, cb, W2, H2, caps, &told, out, sizeof out);
-  if (rc == 0 && caps) {
-    /* after the size message a conforming viewer asks for everything */
-    unsigned char m[10] = { 3, 0, 0, 0, 0, 0, (unsigned char)(W2 >> 8), (unsigned char)W2, (unsigned char)(H2 >> 8), (unsigned char)H2 };
-    wr(c.peer, m, 10);
-    if (caps == 2) rc = read_fbu(c.peer, cb, W2, H2, caps, &told, out, sizeof out);
-    if (rc == 0) rc = read_fbu(c.peer, cb, W2, H2, caps, &told, out, sizeof out);
-  }
+  /* a resize-capable viewer got the size message first; the request that is still outstanding then brings
+     pixel data of the new geometry */
+  if (rc == 0 && caps) rc = read_fbu(c.peer, cb, W2, H2, caps, &told, out, sizeof out);
   if (rc != 0) printf("!thr FAIL no update after the replacement (rc %d)\n", rc);
   if (caps && !told) printf("!order FAIL no size message at all\n");
   printf("thr msgs=[%s] cur=%d,%d\n", out, W2, H2);
